@@ -186,7 +186,17 @@ fn derive_pair(l: L, op: u16, ia: Ing, ib: Ing, dep: usize, r3: u128) -> (u128, 
         8 => {
             // carry boundary of the middle column of the two-limb product (128-bit multiplications)
             if l.w == 128 && op == MUL {
-                if let Some((x, y)) = mul_column_boundary(r3) {
+                if (r3 >> 101) & 3 == 0 {
+                    // squares: x = xh 2^64 + xl with the cross product xh*xl just below 2^127 (unsigned) or 2^126
+                    // (signed), so that doubling it meets the carry of xl^2 at the column's carry boundary
+                    let t = if l.signed { 1u128 << 126 } else { 1u128 << 127 };
+                    let lo = if l.signed { 1u128 << 62 } else { 1u128 << 63 };
+                    let xh = lo | ((r3 >> 8) & (lo - 1));
+                    let xl = ((t - 1) / xh).wrapping_sub((r3 >> 104) % 3).min(u64::MAX as u128);
+                    let x = (xh << 64) | xl;
+                    a = if l.signed && (r3 >> 103) & 1 == 1 { x.wrapping_neg() } else { x };
+                    b = a;
+                } else if let Some((x, y)) = mul_column_boundary(r3) {
                     (a, b) = if (r3 >> 100) & 1 == 1 { (y, x) } else { (x, y) };
                 }
             }
